@@ -52,6 +52,10 @@ impl<'a> SendLastStateProofProcess<'a> {
         };
 
         let last_header: VerifiableHeader = self.message.last_header().to_entity().into();
+        if last_header.is_total_difficulty_overflowed() {
+            let errmsg = "the total difficulty of the last header is overflow";
+            return StatusCode::MalformedProtocolMessage.with_context(errmsg);
+        }
 
         // Update the last state if the response contains a new one.
         if !original_request.is_same_as(&last_header) {
@@ -80,6 +84,13 @@ impl<'a> SendLastStateProofProcess<'a> {
             .map(|header| header.to_entity().into())
             .collect::<Vec<VerifiableHeader>>();
         let last_n_blocks = self.protocol.last_n_blocks() as usize;
+        if headers
+            .iter()
+            .any(|header| header.is_total_difficulty_overflowed())
+        {
+            let errmsg = "the total difficulty of a header is overflow";
+            return StatusCode::MalformedProtocolMessage.with_context(errmsg);
+        }
 
         trace!(
             "peer {}: last_number: {}, last_hash: {:#x}, headers_count: {}, last_n_config: {last_n_blocks}",
